@@ -267,7 +267,7 @@ Theorem tf_gather_stmts_tie : Gen_C16.tf_gather_stmts =
 Proof. exact C16_GenTie.tf_gather_stmts_tie. Qed.
 Print Assumptions tf_gather_stmts_tie.
 Theorem tf_getitem_stmts_tie : Gen_C16.tf_getitem_stmts =
-  [ "if isinstance(key, list):\n    tensor = tf.gather(self.tensor, key)\n    mask = tf.gather(self.mask, key)\nelse:\n    tensor = self.tensor[key]\n    mask = self.mask[key]";
+  [ "if isinstance(key, list):\n    key = tf.constant(key, dtype=tf.int32)\n    tensor = tf.gather(self.tensor, key)\n    mask = tf.gather(self.mask, key)\nelse:\n    tensor = self.tensor[key]\n    mask = self.mask[key]";
     "return MaskedTensor(tensor=tensor, mask=mask)" ].
 Proof. exact C16_GenTie.tf_getitem_stmts_tie. Qed.
 Print Assumptions tf_getitem_stmts_tie.
